@@ -4,6 +4,15 @@
 open Model
 type string = Stdlib.String.t
 open Conv
+(* long byte strings: `z<seed>x<len>` in operation arguments (a pattern both sides generate), `#<len>:<fnv1a64>` for observed / expected contents *)
+let zbyte seed i = (seed + i * 131 + (i / 251) * 17) land 255
+let ns_of_hex (s : string) = if String.length s > 0 && s.[0] = 'z' then (match String.split_on_char 'x' (String.sub s 1 (String.length s - 1)) with [a; b] -> let seed = int_of_string a and len = int_of_string b in List.init len (fun i -> n_of_int (zbyte seed i)) | _ -> failwith "zdata") else Conv.ns_of_hex s
+let hex_of_ns (l : Model.n list) : string =
+  let len = List.length l in
+  if len <= 96 then Conv.hex_of_ns l else begin
+    let h = ref 0xcbf29ce484222325L in
+    List.iter (fun b -> h := Int64.mul (Int64.logxor !h (Int64.of_int (int_of_n b))) 0x100000001b3L) l;
+    Printf.sprintf "#%d_%016Lx" len !h end
 
 let split_on_first c s = match String.index_opt s c with None -> (s, "") | Some k -> (String.sub s 0 k, String.sub s (k + 1) (String.length s - k - 1))
 let pos_of_string s = match n_of_string s with Npos p -> p | N0 -> XH
@@ -33,6 +42,38 @@ let parse_op (op : string) : op =
   | "mwrite" -> OMWrite (pp 1, nn 2, nn 3) | "munsplit" -> OMUnsplit (pp 1, pp 2) | "mfreeze" -> OMFreeze (pp 1) | "mvec" -> OMIntoVec (pp 1) | "madv" -> OMAdvance (pp 1, nn 2)
   | "mclone" -> OMClone (pp 1) | "mdrop" -> OMDrop (pp 1) | "vbytes" -> OVIntoBytes (pp 1) | "vdrop" -> OVDrop (pp 1)
   | _ -> failwith ("op " ^ op)
+(* public entry points that the source defines through other entry points: the sequence of model operations each one stands for
+   (bytes_mut.rs: `Extend<Bytes>` = extend_from_slice per item; `Extend<&u8>` = Extend<u8> of the copied iterator; `put_slice`, `write_str` =
+   extend_from_slice; `put_bytes` = reserve + fill = resize to len + cnt; `set_len` below len = truncate; writing k <= spare bytes into
+   spare_capacity_mut and set_len(len + k) = extend_from_slice that fits; `Buf::copy_to_bytes` = split_to + freeze; `put(Bytes)` = extend_from_slice
+   of its contents, then the source is dropped.  bytes.rs: `copy_from_slice`, `From<Box<[u8]>>` = From<Vec> of a full vector; `From<String>` = From<Vec>;
+   `FromIterator<u8>` = From<Vec> of the collected vector (an exact-size iterator: capacity = length); BytesMut `FromIterator`, `From<&str>` = From<&[u8]>).
+   That a sequence of model steps refines the same sequence of value-model steps is `history_refinement` (RefineCor.v) *)
+type xop = O of op | FreezeRet      (* FreezeRet: freeze the handle the previous step of the sequence returned *)
+let expand (op : string) (prev_len : int -> int) (contents : int -> Model.n list) : xop list =
+  let f = String.split_on_char ':' op in
+  let a k = List.nth f k in
+  let nn k = n_of_string (a k) and pp k = pos_of_string (a k) and bb k = ns_of_hex (a k) in
+  let lenb k = n_of_int (List.length (bb k)) in
+  match List.hd f with
+  | "bcopy" | "bfbox" | "bfiter" -> [O (OBFromVec (bb 1, lenb 1))]
+  | "bfstr" -> [O (OBFromVec (bb 1, nn 2))]
+  | "mfiter" | "mfstr" -> [O (OMFromSlice (bb 1))]
+  | "mextb" -> if a 2 = "~" then [] else List.map (fun c -> O (OMExtend (pp 1, ns_of_hex c))) (String.split_on_char ',' (a 2))
+  | "mextr" -> [O (OMExtendIter (pp 1, bb 2, lenb 2))]
+  | "mput" | "mfmt" | "mspare" -> [O (OMExtend (pp 1, bb 2))]
+  | "mputb" -> [O (OMResize (pp 1, n_of_int (prev_len (int_of_string (a 1)) + int_of_string (a 3)), nn 2))]
+  | "msetlen" -> [O (OMTruncate (pp 1, nn 2))]
+  | "mctb" -> [O (OMSplitTo (pp 1, nn 2)); FreezeRet]
+  | "mputbuf" -> [O (OMExtend (pp 1, contents (int_of_string (a 2)))); O (OBDrop (pp 2))]
+  | _ -> [O (parse_op op)]
+let inst (x : xop) (last : retv) : op option = match x, last with O o, _ -> Some o | FreezeRet, RH h -> Some (OMFreeze h) | FreezeRet, _ -> None
+let rec sstep_seq cap ubit (ops : xop list) (s : sst) (last : retv) : sout = match ops with
+  | [] -> SOk (s, last)
+  | x :: r -> (match inst x last with None -> SStuck | Some o -> (match sstep cap ubit o s with SOk (s', rv) -> sstep_seq cap ubit r s' rv | other -> other))
+let rec run_seq orc (ops : xop list) (s : hst) (last : retv) (acc : ev list) = match ops with
+  | [] -> OK (last, s, acc)
+  | x :: r -> (match inst x last with None -> UB (EmptyString) | Some o -> (match run_op orc o s with OK (rv, s', e) -> run_seq orc r s' rv (acc @ e) | PANIC (s', e) -> PANIC (s', acc @ e) | UB w -> UB w))
 let show_ev = function
   | EAlloc (XO p, sz) -> Printf.sprintf "a%s:%s" (string_of_pos p) (string_of_n sz) | EAlloc (_, sz) -> "a?:" ^ string_of_n sz
   | EFree (XO p, sz) -> Printf.sprintf "f%s:%s" (string_of_pos p) (string_of_n sz) | EFree (_, sz) -> "f?:" ^ string_of_n sz
@@ -41,8 +82,32 @@ let show_ev = function
 let show_evs l = if l = [] then "~" else String.concat "," (List.map show_ev l)
 let blk_of_sid = function Some (XO p) -> string_of_pos p | Some (XI _) -> "d" | Some XH -> "?" | None -> "*"
 (* expected record of a model handle *)
+(* long contents are read and hashed once per (storage data, window) / per value of M1: the lists of an untouched storage or value are
+   physically the same objects after a step, which is what the memo tables test (==); they are emptied at the start of every history *)
+let memo2 : (string, (Model.n list * bool * Model.n * Model.n list * string)) Hashtbl.t = Hashtbl.create 64
+let memo1 : (string, (Model.n list * string)) Hashtbl.t = Hashtbl.create 64
+let contents_memo (st : hst) (x : handle) : (Model.n list * string) option =
+  let slow () = match handle_contents st x with Some bs -> Some (bs, hex_of_ns bs) | None -> None in
+  let key = match x with HB (Some k, ofs, len, _, _) -> Some (k, ofs, len) | HM (k, ofs, len, _, _) -> Some (k, ofs, len) | HV (k, len, _) -> Some (k, N0, len) | _ -> None in
+  match key with
+  | Some (k, ofs, len) when int_of_n len > 96 ->
+    (match List.assoc_opt k (storages_of st) with
+     | None -> slow ()
+     | Some sto ->
+       let ks = string_of_pos k ^ ":" ^ string_of_n ofs ^ ":" ^ string_of_n len in
+       (match Hashtbl.find_opt memo2 ks with
+        | Some (d, live, size, bs, hx) when d == sto.s_data && live = sto.s_live && size = sto.s_size -> Some (bs, hx)
+        | _ -> (match slow () with Some (bs, hx) -> Hashtbl.replace memo2 ks (sto.s_data, sto.s_live, sto.s_size, bs, hx); Some (bs, hx) | None -> None)))
+  | _ -> slow ()
+let memo3 : (string, (Model.n list * Model.n list)) Hashtbl.t = Hashtbl.create 64
+let same_lists (id : string) (a : Model.n list) (b : Model.n list) : bool =
+  a == b || (match Hashtbl.find_opt memo3 id with Some (a0, b0) when a0 == a && b0 == b -> true | _ -> let r = (a = b) in if r then Hashtbl.replace memo3 id (a, b); r)
+let hex1 (id : string) (l : Model.n list) : string =
+  match Hashtbl.find_opt memo1 id with
+  | Some (l0, hx) when l0 == l -> hx
+  | _ -> let hx = hex_of_ns l in (match l with _ :: _ :: _ -> Hashtbl.replace memo1 id (l, hx) | _ -> ()); hx
 let show_mh (st : hst) (id : positive) (x : handle) : string =
-  let hexo = match handle_contents st x with Some bs -> hex_of_ns bs | None -> "?" in
+  let hexo = match contents_memo st x with Some (_, hx) -> hx | None -> "?" in
   match x with
   | HB (k, ofs, len, _, _) -> Printf.sprintf "%s:B:%s:%s:%s:-:%s:%s" (string_of_pos id) (blk_of_sid k) (string_of_n ofs) (string_of_n len) hexo (match handle_unique st x with Some true -> "1" | Some false -> "0" | None -> "?")
   | HM (k, ofs, len, cap, _) -> Printf.sprintf "%s:M:%s:%s:%s:%s:%s:-" (string_of_pos id) (blk_of_sid (Some k)) (string_of_n ofs) (string_of_n len) (string_of_n cap) hexo
@@ -82,6 +147,7 @@ let run () =
         let c = try Hashtbl.find perkind kind with Not_found -> 0 in Hashtbl.replace perkind kind (c + 1);
         if not !reported && c < 4 then (reported := true; Printf.printf "MISMATCH %s %s :: %s\n" kind detail line) end in
       let nontrivial = ref false in
+      Hashtbl.reset memo1; Hashtbl.reset memo2; Hashtbl.reset memo3;
       (try
         let mst = ref (hst0 odd) and sst = ref sst0 in
         let prev : ih list ref = ref [] in
@@ -220,13 +286,14 @@ let run () =
             if opname = "buniq" && not ipanic then (match find_prev (argi 1) with Some p -> if ret <> "b" ^ p.uniq then report "c08-is-unique" "is_unique() differs between two consecutive calls" | None -> ());
             (* ---- models ---- *)
             if !model_ok then begin
-              let mop = parse_op op in
+              let mops = expand op (fun id -> match find_prev id with Some p -> p.len | None -> 0)
+                                   (fun id -> match List.assoc_opt (pos_of_string (string_of_int id)) (svals_of !sst) with Some v -> v.sv_bytes | None -> []) in
               let orc = List.filter_map (fun e -> if e.[0] = 'r' then (match String.split_on_char ':' e with [_; _; s] -> Some (n_of_string (fst (split_on_first '!' s))) | _ -> None)
                                                   else if e.[0] = 'a' && e <> "ac" then Some (n_of_string (snd (split_on_first ':' e))) else None) ievs in
               (* M1 first: the value model with the concrete side's capacity / uniqueness bit *)
               let pcap = (match find_prev (argi 1) with Some p when p.kind = 'M' -> n_of_string p.cap | _ -> N0) in
               let ubit = (match opname with "buniq" -> ret = "b1" | "btryinto" -> ret <> "err" | "mreclaim" -> ret = "b1" | _ -> false) in
-              (match sstep pcap ubit mop !sst with
+              (match sstep_seq pcap ubit mops !sst RUnit with
                | SOk (s', r) ->
                  if ipanic then report "c13-unexpected-panic" (Printf.sprintf "op=%s panicked; the value model gives a result (in-contract call)" op)
                  else begin
@@ -234,7 +301,7 @@ let run () =
                    (* C01: every handle reads what its history says *)
                    let vs = svals_of s' in
                    List.iter (fun (h : ih) -> match List.assoc_opt (pos_of_string (string_of_int h.id)) vs with
-                     | Some v -> if hex_of_ns v.sv_bytes <> h.hex then report "c01-contents" (Printf.sprintf "op=%s: handle %d reads %s, its history says %s" op h.id h.hex (hex_of_ns v.sv_bytes))
+                     | Some v -> let hx = hex1 (string_of_int h.id) v.sv_bytes in if hx <> h.hex then report "c01-contents" (Printf.sprintf "op=%s: handle %d reads %s, its history says %s" op h.id h.hex hx)
                      | None -> report "c01-contents" (Printf.sprintf "op=%s: handle %d should not exist" op h.id)) ist;
                    if List.length vs <> List.length ist then report "c01-contents" (Printf.sprintf "op=%s: %d handles live, the value model has %d" op (List.length ist) (List.length vs));
                    (match r with RH p -> if ret <> "h" ^ string_of_pos p then report "c01-return" (Printf.sprintf "op=%s returned %s, expected h%s" op ret (string_of_pos p)) | _ -> ())
@@ -242,7 +309,7 @@ let run () =
                | SPanic -> if not ipanic then report "c13-missing-panic" (Printf.sprintf "op=%s is out of contract (the value model panics) but the call returned %s" op ret)
                | SStuck -> report "model-obs" ("value model stuck on " ^ op));
               (* M2 *)
-              (match run_op orc mop !mst with
+              (match run_seq orc mops !mst RUnit [] with
                | UB w -> model_ok := false; report "model-ub" (Printf.sprintf "op=%s: the heap model reaches undefined behaviour: %s" op (string_of_cstring w))
                | (OK (_, s', e) | PANIC (s', e)) as res ->
                  let mpanic = (match res with PANIC _ -> true | _ -> false) in
@@ -250,7 +317,7 @@ let run () =
                  if mpanic <> ipanic then report "model-outcome" (Printf.sprintf "op=%s model %s impl %s" op (if mpanic then "panics" else "returns") outcome)
                  else begin
                    (match res with OK (r, _, _) ->
-                      let mr = (match r with RUnit -> "-" | RBool true -> "b1" | RBool false -> "b0" | RH p -> "h" ^ string_of_pos p | RErr _ -> "err") in
+                      let mr = if opname = "mfmt" then "b1" else (match r with RUnit -> "-" | RBool true -> "b1" | RBool false -> "b0" | RH p -> "h" ^ string_of_pos p | RErr _ -> "err") in
                       if mr <> ret then report "model-return" (Printf.sprintf "op=%s model=%s impl=%s" op mr ret) | _ -> ());
                    if show_evs e <> evs then report "model-events" (Printf.sprintf "op=%s model=%s impl=%s" op (show_evs e) evs);
                    let mh = List.sort compare (List.map (fun (id, x) -> (int_of_n (Npos id), show_mh s' id x)) (handles_of s')) in
@@ -258,8 +325,8 @@ let run () =
                    else List.iter2 (fun (_, m) i -> if not (same_handle m i) then report "model-state" (Printf.sprintf "op=%s model=%s impl=%s" op m (show_ih i))) mh (List.sort (fun a b -> compare a.id b.id) ist);
                    (* M2 refines M1 *)
                    let vs = svals_of !sst in
-                   List.iter (fun (id, x) -> match List.assoc_opt id vs, handle_contents s' x with
-                     | Some v, Some bs -> if v.sv_bytes <> bs then report "model-refinement" (Printf.sprintf "op=%s handle %s: heap model reads %s, value model %s" op (string_of_pos id) (hex_of_ns bs) (hex_of_ns v.sv_bytes))
+                   List.iter (fun (id, x) -> match List.assoc_opt id vs, contents_memo s' x with
+                     | Some v, Some (bs, _) -> if not (same_lists (string_of_pos id) v.sv_bytes bs) then report "model-refinement" (Printf.sprintf "op=%s handle %s: heap model reads %s, value model %s" op (string_of_pos id) (hex_of_ns bs) (hex_of_ns v.sv_bytes))
                      | _, _ -> if not ipanic then report "model-refinement" (Printf.sprintf "op=%s handle %s missing in one model" op (string_of_pos id))) (handles_of s')
                  end)
             end;
